@@ -325,6 +325,9 @@ pub fn evaluate(tok: &str) -> Eval {
             }
             let v: u32;
             if cur.iter().all(|c| dval(*c).is_some()) {
+                if cur.len() > 4 && dval(cur[0]) != Some(0) {
+                    return Err(Eval::Malformed("__long_group"));
+                }
                 if cur.len() > 4 || (cur.len() > 1 && dval(cur[0]) == Some(0)) {
                     return Err(Eval::Unspecified);
                 }
@@ -375,7 +378,7 @@ pub fn evaluate(tok: &str) -> Eval {
                     return Eval::Malformed("large units out of order or repeated");
                 }
                 if let Err(e) = finish(&mut cur, slot, &mut slots) {
-                    return e;
+                    return long_group(e, &int_part, &frac_part);
                 }
                 last_large = slot;
             } else {
@@ -384,7 +387,7 @@ pub fn evaluate(tok: &str) -> Eval {
         }
         if !cur.is_empty() {
             if let Err(e) = finish(&mut cur, 0, &mut slots) {
-                return e;
+                return long_group(e, &int_part, &frac_part);
             }
         }
         let top = (0..4).rev().find(|i| slots[*i].is_some()).unwrap();
@@ -403,6 +406,50 @@ pub fn evaluate(tok: &str) -> Eval {
         Eval::Value(int_val)
     } else {
         Eval::Value(format!("{}.{}", int_val, frac))
+    }
+}
+
+/// A plain digit group of more than four digits next to large units ("3万12345", "1兆12345", "12345万"): the strict
+/// grammar does not cover it, but digits and units only ever add up, so if such a text is joined its value is the sum.
+fn long_group(e: Eval, int_part: &[char], frac_part: &[char]) -> Eval {
+    if e != Eval::Malformed("__long_group") {
+        return e;
+    }
+    if !frac_part.is_empty() {
+        return Eval::Unspecified;
+    }
+    let mut total: u128 = 0;
+    let mut group: u128 = 0;
+    let mut pending: Option<u128> = None;
+    let mut digits_in_group = 0;
+    for c in int_part {
+        if let Some(d) = dval(*c) {
+            let p = pending.unwrap_or(0);
+            if digits_in_group > 30 {
+                return Eval::Unspecified;
+            }
+            pending = Some(p * 10 + d as u128);
+            digits_in_group += 1;
+        } else if let Some(si) = SMALL.iter().position(|s| s == c) {
+            group += pending.take().unwrap_or(1) * 10u128.pow(si as u32 + 1);
+            digits_in_group = 0;
+        } else if let Some(li) = LARGE.iter().position(|l| l.0 == *c) {
+            group += pending.take().unwrap_or(0);
+            let m = 10u128.pow(4 * (li as u32 + 1));
+            total = match group.checked_mul(m).and_then(|x| total.checked_add(x)) {
+                Some(t) => t,
+                None => return Eval::Unspecified,
+            };
+            group = 0;
+            digits_in_group = 0;
+        } else {
+            return Eval::Unspecified;
+        }
+    }
+    group += pending.take().unwrap_or(0);
+    match total.checked_add(group) {
+        Some(t) => Eval::Value(t.to_string()),
+        None => Eval::Unspecified,
     }
 }
 
@@ -498,6 +545,10 @@ pub fn run(ctx: &Ctx, rep: &mut Report) {
         for c in "0123456789〇一二三四五六七八九十百千万億兆".chars() {
             lex.entries.push(Entry::simple(&c.to_string(), rng.range(0, nid - 1) as i16, rng.range(0, nid - 1) as i16, rng.range(0, 300) as i16, &pool[1]));
         }
+        // multi-character words that begin with a numeral character: very cheap, so that they are on the best path
+        for w in ["一般", "十日", "千葉", "百貨店"] {
+            lex.entries.push(Entry::simple(w, rng.range(0, nid - 1) as i16, rng.range(0, nid - 1) as i16, -6000, &pool[0]));
+        }
         for c in [",", "."] {
             lex.entries.push(Entry::simple(c, rng.range(0, nid - 1) as i16, rng.range(0, nid - 1) as i16, rng.range(0, 300) as i16, &pool[2]));
         }
@@ -552,6 +603,8 @@ pub fn run(ctx: &Ctx, rep: &mut Report) {
                         0 | 1 => gen_bad_grouping(&mut rng),
                         // a point directly followed by a unit, then more digits / units
                         2 => format!("{}.{}{}", rng.s(&["8", "3", "12", "二", "1,000"]), rng.s(&["十", "百", "千", "万", "億", "兆"]), rng.s(&["5", "2千万", "五千億", "", "00", "3.5"])),
+                        // a plain digit group that is too long for the unit before it (or just long)
+                        3 => format!("{}{}{}", rng.s(&["3", "12", "二十", "5千"]), rng.s(&["万", "億", "兆"]), rng.s(&["12345", "123456789", "99999", "1234567890123"])),
                         _ => mutate(&mut rng, &n),
                     }
                 } else {
@@ -562,7 +615,7 @@ pub fn run(ctx: &Ctx, rep: &mut Report) {
                 text.push_str(&spelled);
                 spans.push((start, text.len(), if malformed { None } else { Some(n) }, raw));
                 if j + 1 < k || rng.chance(1, 2) {
-                    text.push_str(rng.s(&["に", "円", "です", "と", "は"]));
+                    text.push_str(rng.s(&["に", "円", "です", "と", "は", "一般", "十日", "千葉", "百貨店"]));
                 }
             }
             rep.eval();
